@@ -43,10 +43,29 @@ const vfGuard = 8
 func VfC12Traverse() {
 	hops := 2 + vf.Choose(vf.Param("N")-1)
 	sp := vfPath(hops)
+	// the path may already hold blocks of an earlier build (a re-announced route, a copied
+	// table entry): arbitrary old contents, shared with a copy of the path
+	var oldF, oldR, keepF []byte
+	if vf.Bool() {
+		nf, nr := vf.Int(), vf.Int()
+		vf.Assume(nf >= 0 && nf <= 12 && nr >= 0 && nr <= 12)
+		oldF, oldR = make([]byte, nf, 12), make([]byte, nr, 12)
+		copy(oldF[:12], vf.Bytes(12))
+		copy(oldR[:12], vf.Bytes(12))
+		keepF = append([]byte(nil), oldF[:12]...)
+		sp.ForwardBlock, sp.ReturnBlock = oldF, oldR
+		vf.Reach("rebuilt")
+	}
 	err := sp.BuildBlocks()
 	vf.Assert(err == nil, "build-error")
 	if err != nil {
 		return
+	}
+	if keepF != nil {
+		// building never writes into the blocks another copy of the path still holds
+		z := vf.Int()
+		vf.Assume(z >= 0 && z < 12)
+		vf.Assert(oldF[:12][z] == keepF[z], "rebuild-overwrote-blocks-of-a-copy")
 	}
 	size := len(sp.ForwardBlock)
 	vf.Assert(len(sp.ReturnBlock) == size, "block-sizes-differ")
